@@ -11,7 +11,7 @@ sys.path.insert(0, os.path.dirname(os.path.dirname(os.path.abspath(__file__))))
 import ast
 import z3
 from pyvc import xreal as xr
-from pyvc.numexec import Num, Bool, Unsupported
+from pyvc.numexec import Num, Bool, Unsupported, ANALYSIS
 from pyvc.heap import (HeapExec, HPath, LoopSpec, Ref, NONE, XR, Act, cls_of, SeqRef, SeqAct, x2xr, xr2x, RefV, SeqV, ActV, BATCH, canon)
 from pyvc.hlib import init_heap, emit, frame_goal
 from pyvc.solve import Obl, static, undecided
@@ -582,7 +582,7 @@ def build(run):
         fq = f"activation.{cls}.activate"
         try:
             verify_loop_method(run, cls)
-        except Unsupported as ex_:
+        except ANALYSIS as ex_:
             run.add(undecided(f"{fq}/subset", f"outside the verified subset: {ex_}", fn=fq,
                               meta={"replay": {"module": W_N, "func": "replay_activation", "kwargs": {"method": cls}, "vars": {}}}))
         except NotFound as ex_:
@@ -591,13 +591,13 @@ def build(run):
 
     try:
         verify_proportional(run)
-    except Unsupported as ex_:
+    except ANALYSIS as ex_:
         run.add(undecided("activation.Proportional.activate/subset", f"outside the verified subset: {ex_}", fn="activation.Proportional.activate",
                           meta={"replay": {"module": W_N, "func": "replay_activation", "kwargs": {"method": "Proportional"}, "vars": {}}}))
     for cls_ in ("Highest", "Lowest"):
         try:
             verify_heap_method(run, cls_)
-        except Unsupported as ex_:
+        except ANALYSIS as ex_:
             run.add(undecided(f"activation.{cls_}.activate/subset", f"outside the verified subset: {ex_}", fn=f"activation.{cls_}.activate",
                               meta={"replay": {"module": W_N, "func": "replay_activation", "kwargs": {"method": cls_}, "vars": {}}}))
     # bounded stand-ins (level B, never counted as proved): Highest / Lowest / Proportional are not yet under a loop contract
